@@ -41,6 +41,7 @@ func main() {
 	seed := flag.Int64("seed", 1, "PRNG seed")
 	statsPath := flag.String("stats", "", "write generator statistics (JSON) here")
 	flag.Parse()
+	os.Setenv("TZ", "UTC") // default_time uses time.Local when no zone is given
 	if flag.NArg() < 1 {
 		fmt.Fprintln(os.Stderr, "usage: harness [-tier t] [-seed n] <property> [args]")
 		os.Exit(2)
